@@ -14,6 +14,7 @@ import (
 	"encoding/asn1"
 	"encoding/hex"
 	"fmt"
+	"math/big"
 	"math/rand"
 	"sort"
 	"strings"
@@ -359,6 +360,29 @@ func sigEq2(a, b [][]byte) bool {
 	}
 	for i := range a {
 		if !bytes.Equal(a[i], b[i]) {
+			return false
+		}
+	}
+	return true
+}
+
+// sigSameCoefficients: do the two lists of evaluation points give every position the same Lagrange coefficient (at zero)? A permutation
+// of the signer list with that property combines the shares exactly as before, i.e. it is no alteration (exact rational arithmetic).
+func sigSameCoefficients(a, b []int64) bool {
+	if len(a) != len(b) {
+		return false
+	}
+	lag := func(i int64, pts []int64) *big.Rat {
+		r := big.NewRat(1, 1)
+		for _, j := range pts {
+			if j != i {
+				r.Mul(r, big.NewRat(j, j-i))
+			}
+		}
+		return r
+	}
+	for q := range a {
+		if lag(a[q], a).Cmp(lag(b[q], b)) != 0 {
 			return false
 		}
 	}
@@ -1245,7 +1269,11 @@ func (pg *sigPsGroup) runWit(c *sigCase, o *sigOut) {
 				signers[q] = uint16(c.S[q]%c.N + 1)
 			}
 		}
-		o.Changed = fmt.Sprint(signers) != fmt.Sprint(sigU16(c.S))
+		pa, pb := make([]int64, len(signers)), make([]int64, len(signers))
+		for q := range signers {
+			pa[q], pb[q] = int64(signers[q]), int64(c.S[q]) // ps.Prover uses the party identifier itself as evaluation point
+		}
+		o.Changed = !sigSameCoefficients(pa, pb)
 	}
 	pg.proveAndVerify(b, signers, wits, o)
 }
@@ -1586,7 +1614,11 @@ func (bg *sigBlsGroup) run(ci sigCaseIn) sigOut {
 				signers[q] = s.ids[(s.posOf(c.S[q])+1)%s.n]
 			}
 		}
-		o.Changed = fmt.Sprint(signers) != fmt.Sprint(sigU16(c.S))
+		pa, pb := make([]int64, len(signers)), make([]int64, len(signers))
+		for q := range signers {
+			pa[q], pb[q] = int64(s.posOf(int(signers[q]))+1), int64(s.posOf(c.S[q])+1) // bls.Verifier: position in the parties list
+		}
+		o.Changed = !sigSameCoefficients(pa, pb)
 	case "tpk":
 		alt, err := sigPertValue(sigG2, pp.ThresholdPK, c.Kind, ppB.ThresholdPK)
 		if err != nil {
